@@ -457,6 +457,25 @@ def run_property(hm, tier, seed):
             st.solver_s, time.time() - ts, "" if complete else " INCOMPLETE"))
         sys.stdout.flush()
 
+    # 1b. fixed concrete corpus (only where the harness declares one): executed on the pristine code with real
+    #     floats; a failing program is a violation with its artefact as replay
+    corpus_runs = 0
+    corpus_hits = []
+    for (cs_name, cs_params, cs_inputs) in getattr(hm, "CORPUS", []):
+        class _S(object):
+            name, params = cs_name, cs_params
+        path = write_replay(pid, _S, {"inputs": cs_inputs, "label": "corpus", "detail": "fixed concrete program"},
+                            tag="corpus-%d" % corpus_runs)
+        rr = replay_file(path)
+        corpus_runs += 1
+        if rr.get("reproduced"):
+            corpus_hits.append((path, rr))
+        elif rr.get("error"):
+            inconclusive.append("corpus program %s failed to run: %s" % (cs_params, str(rr.get("error"))[-300:]))
+            os.remove(path)
+        else:
+            os.remove(path)
+    replays_run += corpus_runs
     # 2. replay candidates (distinct labels first)
     reproduced = []
     not_reproduced = 0
@@ -489,6 +508,11 @@ def run_property(hm, tier, seed):
                 os.remove(path)
             except OSError:
                 pass
+    for path, rr in corpus_hits:
+        print("VIOLATION property=%s replay=%s" % (pid, path))
+        f0 = rr["failures"][0]
+        print("  concrete corpus: label=%s detail=%s" % (f0["label"], str(f0.get("detail"))[:600]))
+        status = EXIT_VIOLATION
     for keyl, path, rr in reproduced:
         print("VIOLATION property=%s replay=%s" % (pid, path))
         f0 = rr["failures"][0]
@@ -529,6 +553,7 @@ def run_property(hm, tier, seed):
             "known_findings_confirmed": kf_confirmed,
             "known_predicates_excluded": excluded,
             "candidates_not_reproduced": not_reproduced,
+            "concrete_corpus_programs": corpus_runs,
             "inconclusive": inconclusive,
             "outside_claim": meta.get("outside_claim", []),
             "exhaustive": False,
